@@ -22,6 +22,8 @@ pub enum Case {
     Totality { headers: Vec<(String, String)> },
     HttpStatus { status: u16, trailer_status: Option<i32>, empty_data: bool },
     H2Reason { reason: u32, how: u8 },
+    /// HTTP status without grpc-status, seen through a generated client over the mock transport
+    HttpStatusClient { status: u16, streaming: bool, body_bytes: bool },
 }
 
 fn status_value() -> BoxedStrategy<Vec<u8>> {
@@ -110,7 +112,8 @@ pub fn strategy() -> BoxedStrategy<Case> {
     let http = (100u16..=599, proptest::option::weighted(0.4, 0i32..=16), any::<bool>())
         .prop_map(|(status, trailer_status, empty_data)| Case::HttpStatus { status, trailer_status, empty_data });
     let h2 = (prop_oneof![4 => 0u32..=13, 1 => 14u32..=300, 1 => any::<u32>()], 0u8..4).prop_map(|(reason, how)| Case::H2Reason { reason, how });
-    prop_oneof![10 => rt, 10 => tot, 2 => http, 1 => h2].boxed()
+    let httpc = (100u16..=599, any::<bool>(), any::<bool>()).prop_map(|(status, streaming, body_bytes)| Case::HttpStatusClient { status, streaming, body_bytes });
+    prop_oneof![10 => rt, 10 => tot, 2 => http, 1 => h2, 1 => httpc].boxed()
 }
 
 fn code_of(i: i32) -> Code {
@@ -344,6 +347,58 @@ fn run_http(status: u16, trailer_status: Option<i32>, empty_data: bool, o: &mut 
     Ok(())
 }
 
+
+/// The same table, seen by the caller of a generated client: the peer answers with a bare HTTP status
+/// (no grpc-status anywhere), e.g. a proxy error page.
+fn run_http_client(status: u16, streaming: bool, body_bytes: bool, o: &mut Outcome) -> Result<(), Failure> {
+    use crate::infra::mock::{MockChannel, Reply};
+    o.label("http_status_via_client");
+    o.nontrivial = status != 200;
+    let ch = MockChannel::new(move |_rec| {
+        let mut headers = HeaderMap::new();
+        headers.insert("content-type", HeaderValue::from_static("text/html"));
+        let steps = if body_bytes && status != 200 { vec![BodyStep::Data(Bytes::from_static(b"<html>oops</html>"))] } else { vec![] };
+        Reply { status, headers, steps }
+    });
+    let mut client = crate::svc::vt::raw_client::RawClient::new(ch);
+    let res: Result<Result<usize, Status>, _> = crate::infra::driver::block_on_budget(512, async move {
+        if streaming {
+            let mut s = client.server_stream(b"q".to_vec()).await?.into_inner();
+            let mut n = 0;
+            while s.message().await?.is_some() {
+                n += 1;
+            }
+            Ok(n)
+        } else {
+            client.unary(b"q".to_vec()).await.map(|_| 1)
+        }
+    });
+    let Ok(res) = res else { bail!("C04/http-status-client-stuck", "client call did not complete") };
+    if status == 200 {
+        // 200 without grpc-status: a streaming call ends cleanly, a unary call has no message to return
+        if streaming {
+            ensure!(matches!(res, Ok(0)), "C04/http-200-without-status", "HTTP 200 with an empty body and no grpc-status: {res:?}");
+        } else {
+            ensure!(res.is_err(), "C04/http-200-without-status", "unary call succeeded without a response message");
+        }
+        return Ok(());
+    }
+    let want = code_of(wire::http_status_to_code(status));
+    match res {
+        Err(s) => {
+            // an HTML body is not gRPC framing: the table still decides when the body is empty; with garbage
+            // bytes the decoder may report its own INTERNAL error first
+            if body_bytes {
+                ensure!(s.code() == want || s.code() == Code::Internal, "C04/http-status-table/via-client", "HTTP {status} with a non-gRPC body surfaced as {:?}, table says {want:?}", s.code());
+            } else {
+                ensure!(s.code() == want, "C04/http-status-table/via-client", "HTTP {status} surfaced as {:?}, table says {want:?}", s.code());
+            }
+        }
+        Ok(n) => bail!("C04/http-error-status-reported-ok", "HTTP {status} without grpc-status gave Ok({n})"),
+    }
+    Ok(())
+}
+
 #[derive(Debug)]
 struct Wrap(Box<dyn std::error::Error + Send + Sync>);
 impl std::fmt::Display for Wrap {
@@ -389,6 +444,7 @@ pub fn run(c: &Case, o: &mut Outcome) -> Result<(), Failure> {
         }
         Case::HttpStatus { status, trailer_status, empty_data } => run_http(*status, *trailer_status, *empty_data, o),
         Case::H2Reason { reason, how } => run_h2(*reason, *how, o),
+        Case::HttpStatusClient { status, streaming, body_bytes } => run_http_client(*status, *streaming, *body_bytes, o),
     }
 }
 
@@ -421,6 +477,11 @@ impl Prop for C04 {
         let mut v = vec![];
         for status in 100u16..=599 {
             v.push(Case::HttpStatus { status, trailer_status: None, empty_data: false });
+        }
+        for status in [200u16, 204, 301, 400, 401, 403, 404, 418, 429, 500, 502, 503, 504, 599] {
+            for streaming in [false, true] {
+                v.push(Case::HttpStatusClient { status, streaming, body_bytes: false });
+            }
         }
         for reason in 0u32..=13 {
             for how in 0..2 {
